@@ -144,6 +144,8 @@ func c12One(r *fw.Run, p *Pair, c *c12Case) {
 	var sendFlags uint64
 	if c.Flags == "m" {
 		sendFlags = varlink.More
+		// a continues reply first, then a pause, then the error: the error ends a sequence that was under way
+		cs.Steps = append([]Step{{Op: "reply", Cont: true, Raw: json.RawMessage(`{"first":true}`)}, {Op: "sleep", N: 8}}, cs.Steps...)
 	}
 	recv, err := conn.Send(ctx, "org.example.script.Fail", cs, sendFlags)
 	if err != nil {
@@ -151,9 +153,23 @@ func c12One(r *fw.Run, p *Pair, c *c12Case) {
 		conn.Close()
 		return
 	}
+	if c.Flags == "m" {
+		// every receive of the sequence runs under a context of its own that ends when the receive has returned
+		var out0 json.RawMessage
+		c0, cancel0 := context.WithCancel(ctx)
+		fl0, err0 := recv(c0, &out0)
+		cancel0()
+		if err0 != nil || fl0&varlink.Continues == 0 || jEqual([]byte(`{"first":true}`), out0) != "" {
+			report("stream-out-of-step", fmt.Sprintf("the continues reply in front of the error was received as flags=%d out=%s err=%v", fl0, clip(string(out0), 80), err0))
+			conn.Close()
+			return
+		}
+	}
 	var out1 json.RawMessage
 	var err1 error
-	if pn := catch(func() { _, err1 = recv(ctx, &out1) }); pn != "" {
+	c1, cancel1 := context.WithCancel(ctx)
+	defer cancel1()
+	if pn := catch(func() { _, err1 = recv(c1, &out1); cancel1() }); pn != "" {
 		report("panic", pn)
 		conn.Close()
 		return
@@ -181,9 +197,14 @@ func c12One(r *fw.Run, p *Pair, c *c12Case) {
 	}
 	p.Rig.WaitIdle(20 * time.Second)
 	evs, _ := p.Rig.Log.Take()
+	// under a call with more the error is preceded by a continues reply and a pause: step 2, one more frame on the wire
+	stepOff, frameOff := 0, 0
+	if c.Flags == "m" {
+		stepOff, frameOff = 2, 1
+	}
 	stepRes := ""
 	for _, e := range evs {
-		if e.Kind == "step" && e.Step == 0 {
+		if e.Kind == "step" && e.Step == stepOff {
 			stepRes = e.Res
 		}
 	}
@@ -219,7 +240,7 @@ func c12One(r *fw.Run, p *Pair, c *c12Case) {
 	want := c12Model(c.Name)
 	r.Count(want, 1)
 	switch {
-	case want == "refused" && (stepRes != "err" || delivered || len(frames) != 1):
+	case want == "refused" && (stepRes != "err" || delivered || len(frames) != 1+frameOff):
 		report("refused-name-not-refused", fmt.Sprintf("error name %q must be refused without anything written: handler saw %q, client got err=%v, %d frames on the wire: %q", c.Name, stepRes, err1, len(frames), clip(string(s2c), 300)))
 		return
 	case want == "accepted" && stepRes != "nil":
@@ -228,13 +249,13 @@ func c12One(r *fw.Run, p *Pair, c *c12Case) {
 	}
 	if stepRes == "err" {
 		// refused (by the model or, for the unspecified class, by the library): nothing may have been written
-		if delivered || len(frames) != 1 {
+		if delivered || len(frames) != 1+frameOff {
 			report("refused-but-written", fmt.Sprintf("ReplyError(%q) returned an error to the handler but the client got err=%v and %d frames were written", c.Name, err1, len(frames)))
 		}
 		return
 	}
 	// accepted: delivered unchanged
-	if !delivered || len(frames) != 2 {
+	if !delivered || len(frames) != 2+frameOff {
 		report("accepted-but-not-delivered", fmt.Sprintf("ReplyError(%q) returned nil but the client got err=%v (%d frames on the wire)", c.Name, err1, len(frames)))
 		return
 	}
@@ -265,8 +286,8 @@ func c12One(r *fw.Run, p *Pair, c *c12Case) {
 	var wire struct {
 		Error string `json:"error"`
 	}
-	if json.Unmarshal(frames[0], &wire) != nil || wire.Error != c.Name {
-		report("error-name-on-wire", fmt.Sprintf("sent %q, wire frame is %s", c.Name, clip(string(frames[0]), 300)))
+	if json.Unmarshal(frames[frameOff], &wire) != nil || wire.Error != c.Name {
+		report("error-name-on-wire", fmt.Sprintf("sent %q, wire frame is %s", c.Name, clip(string(frames[frameOff]), 300)))
 	}
 }
 
